@@ -101,6 +101,8 @@ def wsdl_text(d, split=False):
         style = f' style="{o["style"]}"' if o["style"] else ""
         nsattr = f' namespace="{tns}"' if eff_style(d, o) == "rpc" else ""
         hdr = '<soap:header message="tns:AuthHeader" part="auth" use="literal"/>' if o["header"] else ""
+        if o["header"] and d.get("nhdr", 1) == 2:
+            hdr += '<soap:header message="tns:AuthHeader" part="au" use="literal"/>'     # a second header block: the other part of the message
         bflt = "".join(f'<fault name="{fn}"><soap:fault name="{fn}" use="literal"/></fault>' for fn in fnames)
         body_ext = f'<soap:body use="literal"{nsattr}/>'
         # both (valid) orders of the extension elements occur: header first for names of even length
